@@ -73,6 +73,10 @@ type rootSpec struct {
 	// CB: the root itself implements Preparer, Validator and Finalizer.
 	CB     bool `json:"cb,omitempty"`
 	ValErr bool `json:"val_err,omitempty"` // the root's own Validate returns an error
+	// Batch (roots registered during execution): 1 when an expression of an
+	// initially registered root registers it, k+1 when an expression of a
+	// batch-k root does.
+	Batch int `json:"batch,omitempty"`
 }
 
 // caseSpec is the order-independent part of a case.
@@ -698,6 +702,35 @@ func (r *run) judge(c *caseSpec, err error, isCyclic bool, clos map[string]map[s
 			return fail("dependency cycle: %d callbacks ran", len(r.trace))
 		}
 		return out, ""
+	}
+
+	// ---- a dependency cycle among the roots registered during execution is
+	// reported as well (by the pick-up step after the batch that closes it):
+	// an error, and no phase after execution
+	{
+		var regd []*rootSpec
+		for _, t := range r.roots {
+			var deps []string
+			for _, d := range t.deps {
+				if _, ok := r.byName[d]; ok {
+					deps = append(deps, d)
+				}
+			}
+			regd = append(regd, &rootSpec{Name: t.name, Deps: deps})
+		}
+		if cyclic(regd) {
+			out.Kind = "late-cycle"
+			stats.Class("late-roots:dependency-cycle")
+			if err == nil {
+				return fail("roots registered during execution depend on each other: RunDSL returned nil")
+			}
+			for _, e := range r.trace {
+				if e.Phase != 'D' {
+					return fail("roots registered during execution depend on each other: %s ran although the cycle is an error", e)
+				}
+			}
+			return out, ""
+		}
 	}
 
 	// ---- phase barrier: every DSL before every Prepare before every Validate before every Finalize
